@@ -1468,6 +1468,7 @@ def c01_observe(ctx, cases):
             im["header"] = "ok" if gen and all(C01_HEADER.match(v) for v in gen.values()) else ("none-written" if not gen else "missing")
             im["gofmt"] = "ok" if not any(("c_%s/%s" % (c["id"], k)) in unformatted for k in gen) else "unformatted"
             im["package"] = "ok" if all(re.search(r"^package cs$", v, flags=re.M) for v in gen.values()) else "wrong"
+        check_infra(r["compile"])
         c["detail"] = {"compile": r["compile"], "stderr": r["runs"][0]["stderr"][-400:], "written": sorted(gen)}
         impl[c["id"]] = im
     return impl
